@@ -1,6 +1,6 @@
 (* C02 - binary encoding follows the Avro specification (cross-implementation interop). *)
 From AvroV Require Import Base Varint Schema Bytes Names Codec Conforms Layout BinEnc BlockAudit.
-From AvroV Require Import VarintP CodecP SpecP AuditP PaddedP.
+From AvroV Require Import VarintP CodecP SpecP AuditP PaddedP PaddedSpecP.
 Open Scope N_scope.
 
 (* Forward: the bytes written for a conforming value are a specification-legal encoding of it
@@ -131,3 +131,16 @@ Example C02_padding_example :
   [0xAC] ++ padding 0x02 3 ++ [7] = [0xAC; 0x82; 0x80; 0x80; 0x80; 0x00; 7] /\
   dec_long [0x80; 0x80; 0x80; 0x80; 0x80; 0x80; 0x80; 0x80; 0x80; 0x80; 0x00] = LErr.
 Proof. repeat split; vm_compute; reflexivity. Qed.
+
+(* ... and the refutation of the converse holds for EVERY such long, not only for 80 00: each padded
+   form is read as the long by the datum decoder and is the specification-legal encoding of no value. *)
+Theorem C02_padded_long_accepted_outside_spec :
+  forall (c : cfg) (nmz : names) (ens : option str) (z : Z) (p : bytes) (b : N) (k fuel : nat),
+    in_i64 z = true -> enc_long z = p ++ [b] -> (length p + k + 2 <= 10)%nat ->
+    (forall rest, decode (S fuel) c nmz ens SLong (p ++ padding b k ++ rest) = Ok (VLong z, rest)) /\
+    (forall v, ~ spec nmz ens SLong v (p ++ padding b k)).
+Proof.
+  intros c nmz ens z p b k fuel Hz E Hl. split.
+  - intros rest. exact (padded_long_datum c nmz ens z p b k rest fuel Hz E Hl).
+  - intros v. exact (padded_outside_spec nmz ens z p b k v Hz E Hl).
+Qed.
